@@ -36,6 +36,8 @@ Inductive qevent :=
 | QItemSettle   (* one pending item future settles *)
 | QFinish       (* produce() returns *)
 | QFail         (* produce() raises *)
+| QFailCancelled (* produce() turns the cancellation requested by abort() into an exception
+                    (Executor.with_abort_signal raises the abort reason in place of CancelledError) *)
 | QAbort        (* abort(reason) *)
 | QTick.        (* the event loop runs until nothing is runnable *)
 
@@ -93,6 +95,7 @@ Definition applicable (s : qstate) (e : qevent) : bool :=
   match e with
   | QStart => true
   | QPushFut | QPush | QFinish | QFail => producing s
+  | QFailCancelled => match q_prod s with PRun => q_cancel_req s | _ => false end
   | QItemSettle => negb (Nat.eqb (q_pending s) 0) && negb (q_pend_cancelled s)
   | QAbort | QTick => true
   end.
@@ -114,8 +117,9 @@ Definition qstep (c : qconf) (s : qstate) (e : qevent) : qstate * bool :=
                         (q_pend_cancelled s) (q_cleaned s) (q_cb_calls s) (q_due s), false)
   | QFinish => (mkQ PDone false (q_aborted s) true (q_pending s) (q_pend_cancelled s)
                     (q_cleaned s) (q_cb_calls s) (q_due s), false)
-  | QFail => (mkQ PFailWait false (q_aborted s) (q_finished s) (q_pending s) (q_pend_cancelled s)
-                  (q_cleaned s) (q_cb_calls s) (q_due s), false)
+  | QFail | QFailCancelled =>
+      (mkQ PFailWait false (q_aborted s) (q_finished s) (q_pending s) (q_pend_cancelled s)
+           (q_cleaned s) (q_cb_calls s) (q_due s), false)
   | QAbort => do_qabort c s
   | QTick => (settle c s, false)
   end.
@@ -132,6 +136,27 @@ Definition stopped_early (s : qstate) : bool := q_aborted s && negb (q_finished 
 (* nothing of the queue is left running *)
 Definition quiescent (s : qstate) : bool :=
   negb (running s) && Nat.eqb (q_pending s) 0 && match q_due s with DNone => true | _ => false end.
+
+(* acceptance of a trace recorded from a real run: the recording does not show when the event loop ran,
+   so before every event the loop may or may not have settled; the set of possible states is tracked *)
+Definition due_eqb (a b : due) : bool :=
+  match a, b with DNone, DNone | DCleanup, DCleanup | DSettle, DSettle => true | _, _ => false end.
+Definition prod_eqb (a b : prod) : bool :=
+  match a, b with PNone, PNone | PRun, PRun | PFailWait, PFailWait | PDone, PDone => true | _, _ => false end.
+Definition qstate_eqb (a b : qstate) : bool :=
+  prod_eqb (q_prod a) (q_prod b) && Bool.eqb (q_cancel_req a) (q_cancel_req b) &&
+  Bool.eqb (q_aborted a) (q_aborted b) && Bool.eqb (q_finished a) (q_finished b) &&
+  Nat.eqb (q_pending a) (q_pending b) && Bool.eqb (q_pend_cancelled a) (q_pend_cancelled b) &&
+  Bool.eqb (q_cleaned a) (q_cleaned b) && Nat.eqb (q_cb_calls a) (q_cb_calls b) && due_eqb (q_due a) (q_due b).
+
+Definition add_state (s : qstate) (l : list qstate) : list qstate :=
+  if existsb (qstate_eqb s) l then l else s :: l.
+
+Definition qnext (c : qconf) (ss : list qstate) (e : qevent) : list qstate :=
+  fold_right (fun s acc =>
+    let acc1 := if applicable s e then add_state (fst (qstep c s e)) acc else acc in
+    let s' := settle c s in
+    if applicable s' e then add_state (fst (qstep c s' e)) acc1 else acc1) [] ss.
 
 (* ------------------------------------------------------------------------------------------
    Executor bookkeeping for the work-finished hook (executor.py: settle_in_background,
